@@ -248,3 +248,32 @@ def member_calls(root, obj_name, method=None):
 
 def ret_value(r):
     return strip_casts(r.c[0]) if r.c else None
+
+
+def ctor_sites(facts, cls_short):
+    """construction sites `Cls<...> var( args )` of a class by its short name: yields (fn, vardecl, [arg nodes])"""
+    for fn in facts.functions:
+        for d in fn.body.find(lambda n: n.k == 'VarDecl' and n.d.get('tn') == cls_short):
+            if not d.c:
+                continue
+            init = d.c[0]
+            if init.k == 'ParenListExpr' or init.k == 'InitListExpr':
+                yield fn, d, [strip_casts(x) for x in init.c]
+            elif init.d.get('ctor'):
+                yield fn, d, [strip_casts(x) for x in init.args()]
+
+
+def field_ctor_param(facts, cls_q, field):
+    """index of the constructor parameter a field is initialised from (constructors of class cls_q), or None"""
+    short = cls_q.split('::')[-1]
+    for fn in facts.fns(cls_q + '::' + short):
+        for name, init in fn.inits:
+            if name == field:
+                i = strip_casts(init)
+                # `field_( param )` appears as a ParenListExpr / ctor call / plain ref
+                refs = [x for x in i.walk() if x.k in REF_KINDS]
+                for r in refs:
+                    for idx, p in enumerate(fn.params):
+                        if p['n'] == r.n:
+                            return idx
+    return None
